@@ -23,6 +23,20 @@ func (c18) ID() string { return "C18" }
 
 var c18Ops = []string{"get-chain", "get-chain", "get-chain", "has-chain", "reflect-get", "reflect-range", "size", "marshal", "marshal", "marshal-det", "marshal-append", "equal", "clone", "checkinit", "json", "text", "merge-from", "size-det", "unknown"}
 
+// c18Roots: the lazily decodable types of this build (hybrid types become
+// lazy-capable with -tags protoopaque), plus an extension-bearing message
+// (its extension values are decoded lazily with -tags protolegacy; without the
+// tag it is a plain shared message, still a legal target for concurrent readers).
+func c18Roots() []string {
+	roots := append([]string(nil), lazyRoots...)
+	for _, t := range []string{gen.THybNode, gen.THybrid, gen.TMixedHyb} {
+		if lazyCapable(t) {
+			roots = append(roots, t)
+		}
+	}
+	return append(roots, gen.TExt2)
+}
+
 func randSched(r *sim.Rng) scn.Sched {
 	switch r.Intn(4) {
 	case 0:
@@ -34,7 +48,8 @@ func randSched(r *sim.Rng) scn.Sched {
 
 func (c18) Gen(r *sim.Rng, tier string) *scn.Scn {
 	s := &scn.Scn{P: map[string]int64{}}
-	typ := lazyRoots[r.Intn(len(lazyRoots))]
+	roots := c18Roots()
+	typ := roots[r.Intn(len(roots))]
 	intensity := 0
 	switch r.Intn(5) {
 	case 0, 1:
